@@ -6,6 +6,7 @@
 #include <cfloat>
 #include <cmath>
 #include "pretty_common.h"
+#include "guard.h"
 
 using pf::PV;
 typedef std::vector<PV> List;
@@ -17,11 +18,20 @@ static std::vector<Opt> g_opts;
 // ------------------------------------------------------------------------------------------------ buffers
 static const size_t PBUF = 8192;          // "output buffer always ample (8 KiB)"
 static const size_t PRE = 16;             // bytes in front of the buffer: [PRE-1] is the blank the header demands
-static char g_raw[PRE + PBUF + 64];
 static const size_t SCR = 8192;           // scratch for scanned strings/blobs
-static char g_scratch[SCR + 64];
 static const int MAXSLOTS = 256, GUARD = 16;
-static rtosc_arg_val_t g_out[MAXSLOTS + GUARD];
+// All three areas the library writes to end exactly at a PROT_NONE page (engine/guard.h): an overrun is a caught
+// SIGSEGV instead of silent corruption of the harness. In front of each area lies a canary zone that is verified.
+static guard::Arena g_parena, g_sarena, g_oarena;
+static char *g_raw;                       // PRE bytes + print buffer of PBUF bytes
+static char *g_scratch;
+static rtosc_arg_val_t *g_out;            // MAXSLOTS + GUARD sentinel-filled slots
+static void init_buffers()
+{
+    g_parena.init(4); g_raw = (char *)g_parena.at_end(PRE + PBUF, 4096);
+    g_sarena.init(3); g_scratch = (char *)g_sarena.at_end(SCR, 4096);
+    g_oarena.init(3); g_out = (rtosc_arg_val_t *)g_oarena.at_end((MAXSLOTS + GUARD) * sizeof(rtosc_arg_val_t), 4096);
+}
 static const char *ADDR[3] = {"", "/a", "/a/b0"};
 
 enum Clause { OK = 0, CRASH_PRINT, PRINT_GUARD, PRINT_LEN, COUNT, CRASH_SCAN, SLOTS, STRUCT, CONSUMED, ADDRESS, SCRATCH_GUARD, VALUE, LIBEQ, NCLAUSE };
@@ -44,7 +54,7 @@ static Run run_case(const List &L, const Opt &o, int mode, bool detail)
     static rtosc_arg_val_t dummy[1];
     const rtosc_arg_val_t *inp = n ? in.data() : dummy;
 
-    memset(g_raw, 0x7f, sizeof g_raw);
+    memset(g_raw, 0x7f, PRE + PBUF);
     g_raw[PRE - 1] = ' ';
     char *buf = g_raw + PRE;
     rtosc_print_options po; po.lossless = true; po.floating_point_precision = o.prec; po.sep = " "; po.linelength = o.ll; po.compress_ranges = o.comp;
@@ -54,10 +64,14 @@ static Run run_case(const List &L, const Opt &o, int mode, bool detail)
                         : rtosc_print_message(ADDR[mode], inp, n, buf, PBUF, &po, 0);
     });
     vp::transition();
-    if(sig) { r.c = CRASH_PRINT; r.detail = std::string(pf::signame(sig)) + " inside the printer"; return r; }
+    if(sig) {
+        r.c = CRASH_PRINT; r.detail = std::string(pf::signame(sig)) + " inside the printer";
+        if(sig == SIGSEGV && pf::g_fault_addr >= (void *)(g_raw + PRE + PBUF) && pf::g_fault_addr < (void *)(g_raw + PRE + PBUF + 4096)) { r.c = PRINT_GUARD; r.detail = "printer accessed memory behind the 8 KiB buffer"; }
+        return r;
+    }
     for(size_t k = 0; k + 1 < PRE; ++k) if(g_raw[k] != 0x7f) { r.c = PRINT_GUARD; r.detail = "byte buffer[-" + std::to_string(PRE - k) + "] was written"; return r; }
     if(!isspace((unsigned char)g_raw[PRE - 1])) { r.c = PRINT_GUARD; r.detail = "buffer[-1] became a non-blank"; return r; }
-    for(size_t k = PRE + PBUF; k < sizeof g_raw; ++k) if(g_raw[k] != 0x7f) { r.c = PRINT_GUARD; r.detail = "byte behind the 8 KiB buffer was written"; return r; }
+    if(!g_parena.canary_ok()) { r.c = PRINT_GUARD; r.detail = "bytes more than 16 in front of the buffer were written"; g_parena.at_end(PRE + PBUF, 4096); return r; }
     const char *nul = (const char *)memchr(buf, 0, PBUF);
     if(!nul) { r.c = PRINT_LEN; r.detail = "returned " + std::to_string(ret) + " but wrote no terminating 0 into the buffer (buffer was pre-filled with 0x7f)"; return r; }
     const size_t len = nul - buf;
@@ -73,8 +87,8 @@ static Run run_case(const List &L, const Opt &o, int mode, bool detail)
         r.c = COUNT; r.detail = "syntax checker returns " + std::to_string(count) + " for the printed text of " + std::to_string(n) + " slots"; return r;
     }
 
-    memset(g_out, pf::SENT, sizeof g_out);
-    memset(g_scratch, 0x7f, sizeof g_scratch);
+    memset(g_out, pf::SENT, (MAXSLOTS + GUARD) * sizeof(rtosc_arg_val_t));
+    memset(g_scratch, 0x7f, SCR);
     char addr[32]; memset(addr, 0x7f, sizeof addr);
     size_t rd = 0;
     sig = pf::fenced([&] {
@@ -82,7 +96,13 @@ static Run run_case(const List &L, const Opt &o, int mode, bool detail)
                        : rtosc_scan_message(buf, addr, sizeof addr, g_out, count, g_scratch, SCR);
     });
     vp::transition();
-    if(sig) { r.c = CRASH_SCAN; r.detail = std::string(pf::signame(sig)) + " inside the scanner (count=" + std::to_string(count) + ")"; return r; }
+    if(sig) {
+        r.c = CRASH_SCAN; r.detail = std::string(pf::signame(sig)) + " inside the scanner (count=" + std::to_string(count) + ")";
+        if(sig == SIGSEGV && pf::g_fault_addr >= (void *)(g_scratch + SCR) && pf::g_fault_addr < (void *)(g_scratch + SCR + 4096)) { r.c = SCRATCH_GUARD; r.detail = "scanner accessed memory behind the scratch buffer"; }
+        if(sig == SIGSEGV && pf::g_fault_addr >= (void *)(g_out + MAXSLOTS + GUARD) && pf::g_fault_addr < (void *)((char *)(g_out + MAXSLOTS + GUARD) + 4096)) { r.c = SLOTS; r.detail = "scanner ran more than " + std::to_string(MAXSLOTS + GUARD - count) + " slots past the announced count"; }
+        return r;
+    }
+    if(!g_oarena.canary_ok()) { g_oarena.at_end((MAXSLOTS + GUARD) * sizeof(rtosc_arg_val_t), 4096); r.c = SLOTS; r.detail = "scanner wrote in front of the output array"; return r; }
     r.rng = has_range(g_out, count);
     int touched_end = 0;
     for(int k = 0; k < MAXSLOTS + GUARD; ++k) if(!pf::slot_untouched(g_out[k])) touched_end = k + 1;
@@ -93,7 +113,7 @@ static Run run_case(const List &L, const Opt &o, int mode, bool detail)
     if(!pf::expand(g_out, count, X, sc, err)) { r.c = STRUCT; r.detail = "scanned array is malformed: " + err; return r; }
     if(rd > len || !all_ws(buf + rd)) { r.c = CONSUMED; r.detail = "scanner consumed " + std::to_string(rd) + " of " + std::to_string(len) + " bytes"; return r; }
     if(mode && strcmp(addr, ADDR[mode])) { r.c = ADDRESS; r.detail = "scanned address '" + vp::show(addr, strnlen(addr, sizeof addr)) + "'"; return r; }
-    for(size_t k = SCR; k < sizeof g_scratch; ++k) if(g_scratch[k] != 0x7f) { r.c = SCRATCH_GUARD; r.detail = "byte behind the scratch buffer was written"; return r; }
+    if(!g_sarena.canary_ok()) { g_sarena.at_end(SCR, 4096); r.c = SCRATCH_GUARD; r.detail = "bytes in front of the scratch buffer were written"; return r; }
     if(!pf::same(L, X)) {
         r.c = VALUE;
         if(detail) {
@@ -352,6 +372,7 @@ int main(int argc, char **argv)
     const bool T = vp::thorough();
     for(int ll : {10, 20, 40, 80, 120}) for(int pr : {0, 2, 9}) for(int c : {0, 1}) g_opts.push_back({ll, pr, c});
     build_alphabets(T);
+    init_buffers();
     const List &V3 = T ? V : V20;
     vp::bound("options", "linelength {10,20,40,80,120} x precision {0,2,9} x compress {0,1}, lossless=true, sep=' ' (30 sets); whole messages behind /a and /a/b0 with " + std::string(T ? "4" : "2") + " rotating option sets per list");
     vp::bound("value_alphabet_V", (long long)V.size());
